@@ -92,6 +92,22 @@ func VT_C09_SlowReaderNeverBlocksWriter() {
 	vt.Reach("done")
 }
 
+// Without backpressure a subscriber that has not even taken its seed items yet does not delay writers or readers.
+func VT_C09_UnseededReaderNeverBlocksWriter() {
+	ctx, cancel := context.WithCancel(context.Background())
+	c2 := NewCollection(WithInitialRecord("a", &T9{DefaultInt32: 1}), WithInitialRecord("b", &T9{DefaultInt32: 2}))
+	_ = c2.Pull(ctx)
+	_, err := c2.Update("a", &T9{DefaultInt32: 5})
+	vt.Assert(err == nil, "collection-write-completes-while-subscriber-has-not-taken-its-seeds")
+	_, err = c2.Delete("b")
+	vt.Assert(err == nil, "collection-delete-completes-while-subscriber-has-not-taken-its-seeds")
+	_, ok := c2.Get("a")
+	vt.Assert(ok, "reads-are-not-stalled-either")
+	cancel()
+	vt.NoLeak()
+	vt.Reach("done")
+}
+
 // With backpressure and a reader that has stopped, a Value write returns an error once its send timeout fires instead of hanging.
 func VT_C09_BackpressureTimeout() {
 	v := NewValue(WithInitialValue(&T9{DefaultInt32: 1}))
